@@ -408,7 +408,10 @@ pub fn scenario_with(seed: u64, g: u64, layout: &Layout) -> Scenario {
     o.max_blocks = 22;
     o.msg_tag = layout.msg_tag.clone().unwrap_or_else(|| format!("t{}m", g % 1000));
     if r.chance(3, 10) {
-        o.fail = Some(proggen::FAIL_KINDS[r.usize(proggen::FAIL_KINDS.len())].to_string());
+        // (no .include inside a macro body here: the statement leaves that undefined, and with a
+        // file of that name in reach the expansion can include itself without end)
+        let kinds: Vec<&str> = proggen::FAIL_KINDS.iter().copied().filter(|k| *k != "include-in-macro").collect();
+        o.fail = Some(kinds[r.usize(kinds.len())].to_string());
     }
     let prog = proggen::gen(&mut r, &pool, &o);
     let mut labels = vec![];
